@@ -37,7 +37,7 @@ CFG = {
                       "started in a window carries the extra summand n <= INFLIGHT: the permit is consumed when the stream is "
                       "established, so a peer may sit on n established streams and fire their requests together.",
         "harness": "c15",
-        "n": {"quick": 1500, "thorough": 150000},
+        "n": {"quick": 1500, "thorough": 60000},
         "rule": "N cases, each a fresh Limiter (init op) followed by 10-90 ops; families (i mod 10): 0,1 random interleaving "
                 "of acquire (n in 0..burst+2) / poll one or all / cancel / drop / advance (0, <=r, <=3r, k*r, to a refresh "
                 "boundary -1/0/+1 ns); 2 refill arithmetic at tick boundaries; 3,9 two holders released in either order "
@@ -55,7 +55,7 @@ CFG = {
                     "hook node/components/network/src/verif/rpc.rs (test RPC VRpc<N>, recording handler, greedy client built "
                     "from crate-private mux::StreamQueue / mux::Mux / frame::mux_send_proto)"],
         "assumptions": ["tokio::sync::Mutex hands the lock to waiters in first-poll order without barging; "
-                        "watch::Receiver::wait_for re-evaluates its predicate on every poll; ManualClock sleep is ready iff "
+                        "watch::Receiver::wait_for re-evaluates its predicate whenever the value was changed through send_modify (Permit::drop); ManualClock sleep is ready iff "
                         "now >= deadline; the clock is monotone (time is a natural number of ns since Limiter::start)",
                         "burst <= usize::MAX = 2^64-1 (64-bit target); start + refresh*need overflowing Instant is treated "
                         "like an infinite deadline (never reached in generated runs)",
